@@ -111,6 +111,7 @@ type FnCtx struct {
 	triggers []*Term
 	factGuarded []bool // fact i is guarded by the path condition of the point it was generated at
 	factPC      []*Term // that path condition (nil: none)
+	symCache    map[int][]int // fact index -> constant symbols (unguarded facts only; see relevantFacts)
 	gap      [2]int    // while a return point is being checked: facts generated after that point was reached (indices)
 	trigNth  map[int]bool // fact index -> trigger is 'some element of the trigger sequence is mentioned'
 	obls     []*Obligation
